@@ -36,6 +36,8 @@ type c02cScenario struct {
 	// Unregistered: the receiver does not hold the sender's chain key at the start; one task registers it while
 	// another already tries to open (an open that comes too early may fail and is retried afterwards)
 	Unregistered bool
+	OosN    int    // size parameter of the push reference window (default 2)
+	Slide   int    // C14: after the concurrent phase message Slide goes through the log, then the pushes around it are probed
 }
 
 type c02cWorld struct {
@@ -60,7 +62,11 @@ func c02cScen(seed int64, sc c02cScenario) vsync.Scenario {
 		Setup: func(s *vsync.Sched) vsync.World {
 			w := &c02cWorld{opened: map[int]bool{}}
 			w.S = newParty(seed, "A", "1", 2, 2, false)
-			w.R = newParty(seed, "B", "r", sc.Window, 2, false)
+			oosN := sc.OosN
+			if oosN == 0 {
+				oosN = 2
+			}
+			w.R = newParty(seed, "B", "r", sc.Window, oosN, false)
 			w.g = detGroupMultiMember(seed, "G1")
 			w.ann = w.S.announce(w.g, w.R.md(w.g).Member())
 			if !sc.Unregistered {
@@ -142,6 +148,29 @@ func c02cScen(seed int64, sc c02cScenario) vsync.Scenario {
 					}
 				}
 			}
+			if prop == "C14" && sc.Slide > 0 {
+				// the reference window after the concurrent slides is what the next slide builds on: message Slide goes
+				// through the log now (sequentially); every message around it that the log path can open at this moment
+				// and that lies in the reference window [Slide-N, Slide+N) must open from its push payload
+				m := sc.Slide
+				r := w.R.logOpen(w.g, w.envs[m-1])
+				if !r.ok {
+					return o, &vsync.Verdict{Sig: "C14/not-openable-after-concurrent-opens", Desc: fmt.Sprintf("(%s) message %d is refused by the log path: %s", o, m, r.err)}
+				}
+				w.opened[m] = true
+				for k := 1; k <= sealed; k++ {
+					if k < m-sc.OosN || k >= m+sc.OosN {
+						continue
+					}
+					if !w.R.onDS(w.R.ds.clone()).logOpen(w.g, w.envs[k-1]).ok {
+						continue
+					}
+					pr := w.R.onDS(w.R.ds.clone()).pushOpen(w.pushes[k-1])
+					if !pr.ok || string(pr.payload) != fmt.Sprintf("payload-%d", k) {
+						return o, &vsync.Verdict{Sig: "C14/push-in-reference-window-refused-after-concurrent-slides", Desc: fmt.Sprintf("(%s) then message %d through the log: the push payload of message %d (openable through the log, inside the reference window [%d,%d) around the last counter seen) is refused: %s", o, m, k, m-sc.OosN, m+sc.OosN, pr.err)}
+					}
+				}
+			}
 			// the reference ratchet: registered at 0, n distinct messages opened => every k <= window + n is openable,
 			// opened ones re-open
 			n := len(w.opened)
@@ -175,19 +204,19 @@ func TestVerifC02Conc(t *testing.T) {
 	}()
 	seed := vrep.Seed()
 	scs := []c02cScenario{
-		{"open(1) || open(2), window 2", 2, []c02cThread{{Opens: []int{1}}, {Opens: []int{2}}}, "", false},
-		{"open(1) || open(1), window 1", 1, []c02cThread{{Opens: []int{1}}, {Opens: []int{1}}}, "", false},
-		{"open(2) || open(1) open(3), window 2", 2, []c02cThread{{Opens: []int{2}}, {Opens: []int{1, 3}}}, "", false},
-		{"open(1) || announcement re-delivered, window 1", 1, []c02cThread{{Opens: []int{1}}, {Reg: true}}, "", false},
-		{"first registration || open(1), window 1", 1, []c02cThread{{Reg: true}, {Opens: []int{1}}}, "", true},
-		{"first registration || open(1) open(2), window 2", 2, []c02cThread{{Reg: true}, {Opens: []int{1, 2}}}, "", true},
+		{"open(1) || open(2), window 2", 2, []c02cThread{{Opens: []int{1}}, {Opens: []int{2}}}, "", false, 0, 0},
+		{"open(1) || open(1), window 1", 1, []c02cThread{{Opens: []int{1}}, {Opens: []int{1}}}, "", false, 0, 0},
+		{"open(2) || open(1) open(3), window 2", 2, []c02cThread{{Opens: []int{2}}, {Opens: []int{1, 3}}}, "", false, 0, 0},
+		{"open(1) || announcement re-delivered, window 1", 1, []c02cThread{{Opens: []int{1}}, {Reg: true}}, "", false, 0, 0},
+		{"first registration || open(1), window 1", 1, []c02cThread{{Reg: true}, {Opens: []int{1}}}, "", true, 0, 0},
+		{"first registration || open(1) open(2), window 2", 2, []c02cThread{{Reg: true}, {Opens: []int{1, 2}}}, "", true, 0, 0},
 	}
 	bound, budget := 2, 4*time.Minute
 	if vrep.Thorough() {
 		bound, budget = 3, 20*time.Minute
 		scs = append(scs,
-			c02cScenario{"open(1) || open(2) || open(3), window 3", 3, []c02cThread{{Opens: []int{1}}, {Opens: []int{2}}, {Opens: []int{3}}}, "", false},
-			c02cScenario{"open(1) open(2) || open(2) open(1), window 2", 2, []c02cThread{{Opens: []int{1, 2}}, {Opens: []int{2, 1}}}, "", false},
+			c02cScenario{"open(1) || open(2) || open(3), window 3", 3, []c02cThread{{Opens: []int{1}}, {Opens: []int{2}}, {Opens: []int{3}}}, "", false, 0, 0},
+			c02cScenario{"open(1) open(2) || open(2) open(1), window 2", 2, []c02cThread{{Opens: []int{1, 2}}, {Opens: []int{2, 1}}}, "", false, 0, 0},
 		)
 	}
 	var vs []vsync.Scenario
@@ -213,6 +242,9 @@ func TestVerifC14Conc(t *testing.T) {
 		{Name: "log(1) || push(1), window 1", Window: 1, Threads: []c02cThread{{Opens: []int{1}}, {Pushes: []int{1}}}, Prop: "C14"},
 		{Name: "log(1) || push(2), window 2", Window: 2, Threads: []c02cThread{{Opens: []int{1}}, {Pushes: []int{2}}}, Prop: "C14"},
 		{Name: "push(1) || push(1), window 1", Window: 1, Threads: []c02cThread{{Pushes: []int{1}}, {Pushes: []int{1}}}, Prop: "C14"},
+		// two slides of the reference window at the same moment (the log path at counter 1, the push path at counter 4),
+		// then a third one that builds on what they left
+		{Name: "log(1) || push(4), window 4, reference window 4, then log(5)", Window: 4, OosN: 4, Slide: 5, Threads: []c02cThread{{Opens: []int{1}}, {Pushes: []int{4}}}, Prop: "C14"},
 	}
 	bound, budget := 2, 4*time.Minute
 	if vrep.Thorough() {
